@@ -275,6 +275,22 @@ func (d *driver) calls() []call {
 			}
 		}
 	}
+	// timeout height x timeout timestamp (each unset / future / passed), memo and receiver shapes
+	nowNs := uint64(w.Header.Time.UnixNano())
+	for _, th := range []height{{0, 0}, {3, 100000}, {3, 1}} {
+		for ti, ts := range []uint64{0, nowNs + 3600e9, nowNs - 1} {
+			for _, mr := range [][2]string{{"", recv}, {"memo", recv}, {"", "not-bech32"}, {"", ""}} {
+				if (mr[0] != "" || mr[1] != recv) && !(th.RevisionHeight == 100000 && ti == 1) {
+					continue
+				}
+				c := call{name: fmt.Sprintf("ics20.transfer(timeouts h%d/t%d,memo=%q,recv-ok=%v)", th.RevisionHeight, ti, mr[0], mr[1] == recv), to: precomp.ICS20Addr,
+					data: precomp.MustPack(d.abis.ICS20, "transfer", world.IBCPort, world.IBCChannelA, world.Denom, big.NewInt(1), oHex, mr[1], th, ts, mr[0])}
+				c.native = []sdk.Msg{&transfertypes.MsgTransfer{SourcePort: world.IBCPort, SourceChannel: world.IBCChannelA, Token: sdk.Coin{Denom: world.Denom, Amount: sdkmath.NewInt(1)},
+					Sender: O.String(), Receiver: mr[1], TimeoutHeight: clienttypes.NewHeight(th.RevisionNumber, th.RevisionHeight), TimeoutTimestamp: ts, Memo: mr[0]}}
+				out = append(out, c)
+			}
+		}
+	}
 	// claimRewards(n) == withdrawing from the first n validators the delegator is bonded to
 	dels := w.App.StakingKeeper.GetDelegatorDelegations(ctx, O, 100)
 	for _, n := range []uint32{0, 1, 2, 10} {
